@@ -11,12 +11,18 @@ use std::{
 };
 use threadpool::ThreadPool;
 
+#[cfg(not(nomt_verif))]
 #[cfg(target_os = "linux")]
 #[path = "linux.rs"]
 mod platform;
 
+#[cfg(not(nomt_verif))]
 #[cfg(not(target_os = "linux"))]
 #[path = "unix.rs"]
+mod platform;
+
+#[cfg(nomt_verif)]
+#[path = "verif_io.rs"]
 mod platform;
 
 pub mod fsyncer;
